@@ -268,7 +268,19 @@ fn script(msg: &[u8], t: &mut T) {
                 qs += 1;
                 use_name(t, q.qname(), msg);
                 let _ = write!(t.s, "q{}:{};", q.qtype().to_int(), q.qclass().to_int());
-                let _ = format!("{}", q);
+                let _ = format!("{} {:?}", q, q);
+                {
+                    use domain::base::cmp::CanonicalOrd;
+                    use std::hash::{Hash, Hasher};
+                    let mut hh = std::collections::hash_map::DefaultHasher::new();
+                    q.hash(&mut hh);
+                    let _ = hh.finish();
+                    if !(q == q) || q.cmp(&q) != std::cmp::Ordering::Equal || q.canonical_cmp(&q) != std::cmp::Ordering::Equal {
+                        t.errs.push("question|not-equal-to-itself".into());
+                    }
+                    let mut qb = Vec::new();
+                    let _ = q.compose(&mut qb);
+                }
             }
             Err(_) => {
                 t.ev("qerr");
@@ -355,6 +367,34 @@ fn script(msg: &[u8], t: &mut T) {
             }
             Err(_) => t.ev(&format!("{name}-err")),
         }
+    }
+    // RFC 2136 views of the same sections, slice view, typed iterator hand-over
+    {
+        let z = m.zone().take(LIMIT).filter(|q| q.is_ok()).count();
+        let pr = m.prerequisite().map(|s| s.take(LIMIT).filter(|r| r.is_ok()).count());
+        let up = m.update().map(|s| s.take(LIMIT).filter(|r| r.is_ok()).count());
+        let _ = write!(t.s, "upd{z}:{:?}:{:?};", pr.ok(), up.ok());
+        let sl = m.for_slice();
+        if sl.header_counts().as_slice() != m.header_counts().as_slice() {
+            t.errs.push("message|for_slice-differs".into());
+        }
+        if let Ok(an) = m.answer() {
+            let p0 = an.pos();
+            let mut it = an.limit_to::<A>();
+            let mut k = 0;
+            while let Some(r) = it.next() {
+                k += 1;
+                if r.is_err() || k > LIMIT {
+                    break;
+                }
+            }
+            let back = it.clone().unwrap();
+            let nxt = it.next_section().map(|s| s.map(|s| s.pos()));
+            let _ = write!(t.s, "typed{k}:{p0}:{}:{:?};", back.pos(), nxt.ok());
+        }
+        let mut qs2 = m.question();
+        let _ = qs2.next();
+        let _ = write!(t.s, "qpos{};", qs2.pos());
     }
     // message iterator
     let mut n = 0;
@@ -480,6 +520,51 @@ fn record(t: &mut T, r: &ParsedRecord<'_, [u8]>, msg: &[u8]) {
             if rec.canonical_cmp(&rec) != std::cmp::Ordering::Equal {
                 t.errs.push("record|canonical_cmp-not-reflexive".into());
             }
+            // "whatever is returned as a record can be compared and displayed": total order,
+            // hash, canonical form, and the flattened (owned) copy must be equal to the original
+            // and compose to the same uncompressed octets
+            {
+                use domain::base::name::FlattenInto;
+                use domain::base::rdata::ComposeRecordData;
+                use std::hash::{Hash, Hasher};
+                if rec.partial_cmp(&rec) != Some(std::cmp::Ordering::Equal) || rec.cmp(&rec) != std::cmp::Ordering::Equal {
+                    t.errs.push("record|cmp-not-reflexive".into());
+                }
+                let mut h = std::collections::hash_map::DefaultHasher::new();
+                rec.hash(&mut h);
+                let h1 = h.finish();
+                let mut canon = Vec::new();
+                let cr = rec.compose_canonical(&mut canon).is_ok();
+                let mut cdat = Vec::new();
+                let _ = rec.data().compose_canonical_rdata(&mut cdat);
+                let _ = write!(t.s, "cc{}:{}:{};", cr as u8, canon.len(), cdat.len());
+                type Flat = domain::base::Record<domain::base::Name<Vec<u8>>, AllRecordData<Vec<u8>, domain::base::Name<Vec<u8>>>>;
+                let flat: Result<Flat, _> = rec.clone().try_flatten_into();
+                match flat {
+                    Ok(f) => {
+                        let mut h = std::collections::hash_map::DefaultHasher::new();
+                        f.hash(&mut h);
+                        if h.finish() != h1 {
+                            t.errs.push("record|flattened-copy-hashes-differently".into());
+                        }
+                        let mut b2 = Vec::new();
+                        let rc2 = f.compose(&mut b2);
+                        if rc.is_ok() != rc2.is_ok() || (rc.is_ok() && b2 != buf) {
+                            t.errs.push("record|flattened-copy-composes-differently".into());
+                        }
+                        let mut c2 = Vec::new();
+                        let _ = f.compose_canonical(&mut c2);
+                        if cr && c2 != canon {
+                            t.errs.push("record|flattened-copy-canonical-form-differs".into());
+                        }
+                        if f.canonical_cmp(&f) != std::cmp::Ordering::Equal || !(f == f) {
+                            t.errs.push("record|flattened-copy-not-equal-to-itself".into());
+                        }
+                        let _ = format!("{} {:?}", f, f);
+                    }
+                    Err(_) => t.errs.push("record|flatten-failed".into()),
+                }
+            }
             // names embedded in the data
             match rec.data() {
                 AllRecordData::Cname(x) => use_name(t, x.cname(), msg),
@@ -505,10 +590,18 @@ fn record(t: &mut T, r: &ParsedRecord<'_, [u8]>, msg: &[u8]) {
                     let _ = write!(t.s, "tx{};", k);
                 }
                 AllRecordData::Svcb(x) => {
+                    use_name(t, x.target(), msg);
+                    let kr = x.params().iter_raw().take(LIMIT).count();
+                    let ka = x.params().iter_all().take(LIMIT).filter(|v| v.is_ok()).count();
+                    let _ = (x.params().is_empty(), x.params().len(), x.params().first::<domain::rdata::svcb::value::AllValues<_>>());
+                    let _ = write!(t.s, "svr{kr}:{ka};");
                     let k = x.params().iter::<domain::rdata::svcb::value::AllValues<_>>().take(LIMIT).count();
                     let _ = write!(t.s, "sv{};", k);
                 }
                 AllRecordData::Https(x) => {
+                    use_name(t, x.target(), msg);
+                    let kr = x.params().iter_raw().take(LIMIT).count();
+                    let _ = write!(t.s, "svr{kr};");
                     let k = x.params().iter::<domain::rdata::svcb::value::AllValues<_>>().take(LIMIT).count();
                     let _ = write!(t.s, "sv{};", k);
                 }
